@@ -36,7 +36,7 @@ package simple
 //@   loop 1: decreases len(orig) - end
 //@   loop 2: invariant fragsIn(rv, orig) && (cap(rv) == 0 || fresh(rv)) && 0 <= maxbegin && 0 <= used && 0 <= start && start <= end && (end <= len(orig) || (used == 0 && end == start))
 //@   loop 2: decreases start
-//@   loop 3: invariant 0 <= minend && minend <= end
+//@   loop 3: invariant 0 <= minend && minend <= end && locsOK(ot[currTermIndex:])
 //@   loop 4: invariant fragsIn(rv, orig) && (cap(rv) == 0 || fresh(rv)) && 0 <= maxbegin && 0 <= offset && 0 <= start && start <= len(orig) && 0 <= end && end <= len(orig)
 //@   loop 4: decreases offset
 //@   loop 5: invariant 0 <= end && end <= len(orig) && 0 <= used && start == 0
